@@ -110,6 +110,26 @@ CLAIMED["C13"] = (
     "DESIGN.md section 2, C13",
 )
 
+CLAIMED["C05"] = (
+    "dominating-guard analysis of optional sub-index dereferences; structural checks of the extents layout contract",
+    "Static: every `.subinfo.<attr>` dereference is dominated by a not-None test or by the singlet-group guard (validated "
+    "against the plan generator), the three consumers of the extents table traverse it in native order with running-sum "
+    "offsets, the table is filled in sorted sub-sector order from sub-sectors accumulated in permutation order, and fused "
+    "direction / signed charge / insertion position follow the first-axis rule. Found and fixed the concat-strategy crash on "
+    "single-axis groups." + PARTIAL_NOTE,
+    "Where elements land, bit-exact round trips and equality of the two strategies' values are not decided.",
+    "DESIGN.md section 2, C05/C06",
+)
+CLAIMED["C06"] = (
+    "def-use / dominance analysis of the fused contraction strategy (unfuse-what-you-fused, align-before-fuse)",
+    "Static: each unfuse of the fused strategy is conditional on the arity of the group the function itself fused (read before "
+    "the axes names are re-bound), right before left; both fuse calls follow drop_misaligned_sectors on the same axes; the "
+    "empty early return matches the blockwise indices/charge; canonical sub-sector order is shared with C05. Found and fixed the "
+    "silent unfusing of a pre-fused free leg." + PARTIAL_NOTE,
+    "Equality of values between strategies is not decided.",
+    "DESIGN.md section 2, C05/C06",
+)
+
 PENDING = "check not built yet (construction in progress; see DESIGN.md section 2 for the planned static rule)"
 NOT_APPLICABLE = {
     "C07": "reshape content preservation and the axis-matching routine are arithmetic over runtime shapes; no clause is a "
